@@ -15,6 +15,7 @@ import Driver.Up
 import Driver.Rec
 import Driver.Wire
 import Driver.Ord
+import Driver.Lim
 /-
   Line-protocol driver: one request per line on stdin, one canonical answer per line on stdout.
   The same request lines are executed by the Go harness against the real implementation.
@@ -42,6 +43,7 @@ def step (line : String) : String :=
   | "rec" :: rest => recLine toks.tail!
   | "wire" :: rest => wireLine rest
   | "ord" :: rest => ordLine rest
+  | "lim" :: rest => limLine rest
   | "rc" :: rest => rcLine toks.tail!
   | _ => "bad-op"
 
